@@ -42,7 +42,7 @@ CHECKS = {
              note='string-like token carriers only; not-invocable entries listed in the evidence; net/ and crypto/ tables only in thorough', ref='§6 C09'),
 
  'C12': dict(engine='P', technique='bounded-exhaustive enumeration of dispatch-form sequences + exhaustive native execution with a dynamic call-stack recorder vs pointer call graph / ResolveCallee',
-             text='All sequences of <=2 (thorough <=3) hops over 33 dispatch forms; every natively executed function must be in the reachable set and every dynamic caller->callee transfer must have a call-graph path through synthetic wrappers only - in the call graph of the analyzer state and in the stand-alone ComputeCallgraph(PointerAnalysis) graph - and be contained in the dataflow callee resolution.',
+             text='All sequences of <=2 hops over 33 dispatch forms (thorough: plus all 3-hop sequences over 13 core forms); every natively executed function must be in the reachable set and every dynamic caller->callee transfer must have a call-graph path through synthetic wrappers only - in the call graph of the analyzer state and in the stand-alone ComputeCallgraph(PointerAnalysis) graph - and be contained in the dataflow callee resolution.',
              note='function-granular matching (not per call-site line); small-scope bound on hops', ref='§6 C12'),
  'C18': dict(engine='P', technique='same dispatch enumeration + native execution vs FindReachable under all four root selections; inclusion and monotonicity clauses',
              text='Every natively executed function must be reported by FindReachable (all roots); every function reachable in the pointer call graph must be reported; the reported set is within all program functions and shrinks monotonically when roots are excluded.',
